@@ -245,6 +245,12 @@ def compare(I, st, op, a, b, fr, k):
         if isinstance(op, ast.NotEq):
             c = z3.Not(c)
         return k(st, Sym(mk_bool(z3.simplify(c))))
+    if isinstance(a, Tup) and isinstance(b, Tup):
+        ca = [concrete_key(I, st, x) for x in a.items]; cb = [concrete_key(I, st, x) for x in b.items]
+        if _NOKEY not in ca and _NOKEY not in cb:
+            import operator
+            r_ = {ast.Lt: operator.lt, ast.LtE: operator.le, ast.Gt: operator.gt, ast.GtE: operator.ge}[type(op)](tuple(ca), tuple(cb))
+            return k(st, Sym(mk_bool(z3.BoolVal(r_))))
     if not (isinstance(a, Sym) and isinstance(b, Sym)):
         raise Unsupported(f"ordering comparison on {a!r},{b!r}")
     ta, tb = a.t, b.t
@@ -699,6 +705,64 @@ def exec_while(I, st, s, fr):
 def exec_with(I, st, s, fr):
     from . import loops
     return loops.exec_with(I, st, s, fr)
+
+
+def _with_lock_pred(I, st, cm):
+    return isinstance(cm, Sym) and cm.hint in ("_thread.RLock", "_thread.lock", "threading.RLock")
+
+
+def _with_lock(I, st, s, cm, fr):
+    """`with lock:` - mutual exclusion is an assumed property of the lock (sequential semantics here); the ghost
+    `held` set records that the lock is held while the body runs (lock-discipline obligations read it)."""
+    note(I, "with <lock>: body executed with the lock recorded as held (RLock contract assumed)")
+    held = st.ghost.get("$held")
+    st.ghost["$held"] = Sym(mk_int(z3.IntVal(1)))
+    outs = I.exec_block(st, s.body, fr)
+    for o in outs:
+        if held is None:
+            o.st.ghost.pop("$held", None)
+        else:
+            o.st.ghost["$held"] = held
+    return outs
+
+
+def _with_cm_pred(I, st, cm):
+    return isinstance(cm, CMV)
+
+
+def _with_cm(I, st, s, cm, fr):
+    """`with self._error_catcher():` - the generator function runs inline; its `yield` executes the with-body."""
+    f, args, kwargs = cm.func, cm.args, cm.kwargs
+    from .engine import Frame
+    nfr = Frame(f.module, f.cls, f.q, closure=f.closure, depth=fr.depth + 1)
+    nfr.cm = {"body": s.body, "caller_fr": fr, "caller_env": st.env, "as_name": s.items[0].optional_vars}
+    bound, err = I.bind_params(st, f.node, args, kwargs, nfr, None, f.q)
+    if err:
+        return I.raise_(st, "builtins.TypeError", err)
+    env, missing, kwrest = bound
+    if missing:
+        raise Unsupported("contextmanager with default arguments")
+    caller_env = st.env
+    st.env = env
+    st.trace.append(f"with {f.q.split('.')[-1]}")
+    outs = I.exec_block(st, f.node.body, nfr)
+    res = []
+    for o in outs:
+        o.st.env = o.st.cm_caller_env if o.st.cm_caller_env is not None else caller_env
+        o.st.cm_caller_env = None
+        res.append(o)
+    return res
+
+
+class CMV(Value):
+    """a call of a @contextmanager generator function, waiting for its `with`"""
+    __slots__ = ("func", "args", "kwargs")
+
+    def __init__(self, func, args, kwargs):
+        self.func, self.args, self.kwargs = func, args, kwargs
+
+
+WITH_HANDLERS = [(_with_lock_pred, _with_lock), (_with_cm_pred, _with_cm)]
 
 
 def comprehension(I, st, e, fr, k, kind):
